@@ -191,7 +191,24 @@ class FuncCtx:
                     if v[0] == 'param':
                         out.append(Src('param', v[1], cx, dn))
                     elif v[0] == 'unpack':
-                        out.append(Src('unpack', v[1], cx, dn, v[2]))
+                        # `a, b = t` with t a local bound (on every definition) to a tuple display of that arity: follow the element
+                        done = False
+                        if isinstance(v[1], ast.Name):
+                            inner = cx.sources(dn, v[1], depth + 1, seen, live if cx is self else None)
+                            tups = [s_ for s_ in inner if s_.kind == 'expr' and isinstance(s_.expr, (ast.Tuple, ast.List)) and len(s_.expr.elts) > v[2]
+                                    and not any(isinstance(e_, ast.Starred) for e_ in s_.expr.elts)]
+                            nones = [s_ for s_ in inner if s_.kind == 'expr' and isinstance(s_.expr, ast.Constant) and s_.expr.value is None]
+                            if tups and len(tups) + len(nones) == len(inner):
+                                for s_ in tups:
+                                    el = s_.expr.elts[v[2]]
+                                    for a_ in s_.ctx._alternatives(el):
+                                        if isinstance(a_, ast.Name):
+                                            out += s_.ctx.sources(s_.node, a_, depth + 1, seen, None)
+                                        else:
+                                            out.append(Src('expr', a_, s_.ctx, s_.node))
+                                done = True
+                        if not done:
+                            out.append(Src('unpack', v[1], cx, dn, v[2]))
                     elif v[0] in ('iter', 'with'):
                         out.append(Src(v[0], v[1], cx, dn))
                     elif v[0] == 'aug':
